@@ -106,13 +106,36 @@ def a34(ctx, rep):
     gm = [c for c in f['calls'] if c.get('f') == 'get_meta_items']
     lits = [vt.strip(a).get('v') for c in gm for a in c.get('args', []) if isinstance(vt.strip(a), dict) and vt.strip(a).get('k') == 'lit']
     rep.check(lits == ['cfg'], 'A3', 'only-cfg-attributes', 'candidates come from #[cfg(..)] only', f'accept_target_os collects candidates from {lits} attributes', {'file': f['file'], 'line': f['line']})
-    it = ctx.fnx('TargetOsIterator::next', file='target_os_check.rs')
+    # the walker: the function of target_os_check.rs that tests `is_ident("not")` — `TargetOsIterator::next` (candidates yielded one
+    # by one) or a collector method that records them (found by what it does, whatever it is called)
+    cands_w = [g for g in ctx.fns(file='target_os_check.rs') if any(c.get('f') == 'is_ident' and c.get('args') and isinstance(vt.strip(c['args'][0]), dict) and vt.strip(c['args'][0]).get('v') == 'not' for c in ctx.x(g)['calls'])
+               and any(c.get('f') == 'pop' for c in g['calls'])]
+    if len(cands_w) != 1:
+        raise core.Incomplete(f'target_os_check.rs: the cfg walker (a worklist loop testing is_ident("not")) expected once, found {len(cands_w)}')
+    it = ctx.x(cands_w[0])
     site = {'file': it['file'], 'line': it['line']}
     idents = [vt.strip(c['args'][0]).get('v') for c in it['calls'] if c.get('f') == 'is_ident' and c.get('args') and isinstance(vt.strip(c['args'][0]), dict)]
-    rep.check(sorted(idents) == ['not', 'target_os'], 'A3', 'only-target_os-keys', 'only `target_os = ".."` yields a candidate; only `not` changes scope', f'TargetOsIterator tests the identifiers {idents}', site)
+    rep.check(sorted(set(idents)) == ['not', 'target_os'], 'A3', 'only-target_os-keys', 'only `target_os = ".."` yields a candidate; only `not` changes scope', f'TargetOsIterator tests the identifiers {idents}', site)
     # A4 scope discipline
-    new = ctx.fn('TargetOsIterator::new', file='target_os_check.rs')
-    rep.check('TargetScope::Accept' in vt.show(new['tail']).replace(' ', ''), 'A4', 'initial-scope-accept', 'walk starts in Accept scope', 'TargetOsIterator::new does not start in Accept scope', {'file': new['file'], 'line': new['line']})
+    pops = [c for c in it['calls'] if c.get('f') == 'pop' and c.get('recv') is not None]
+    def work_of(v):
+        # the worklist a call works on: the local's name, or the field path (`self.meta`)
+        while isinstance(v, dict) and v.get('k') in ('ref', 'deref', 'paren'):
+            v = v.get('v')
+        if isinstance(v, dict) and v.get('k') == 'var' and v.get('name'):
+            return str(v['name'])
+        return vt.show(vt.strip(v)).replace(' ', '').lstrip('&').replace('mut', '')
+    work = work_of(pops[0]['recv'])
+    news = ctx.fns(file='target_os_check.rs', name='new')
+    if news and (news[0].get('self_ty') or '').startswith('TargetOsIterator'):
+        init_txt, isite = vt.show(news[0]['tail']).replace(' ', ''), {'file': news[0]['file'], 'line': news[0]['line']}
+    else:
+        # a local worklist: its initial value
+        init = next((l for l in it['lets'] if l.get('names') == [work.split('.')[-1]] and isinstance(l.get('v'), dict)), None)
+        init_txt, isite = (vt.show(init['v']).replace(' ', '') if init else ''), site
+    rep.check('TargetScope::Accept' in init_txt and 'TargetScope::Reject' not in init_txt, 'A4', 'initial-scope-accept', 'walk starts in Accept scope', 'the cfg walk does not start in Accept scope', isite)
+    # a recorder: `fn record(&mut self, scope, value) { match scope { Accept => self.a.push(..), Reject => self.r.push(..) } }`
+    recorder = find_recorder(ctx)
     # the scope a candidate is yielded with / a child is pushed with, as a value: whatever the idiom (a `mut scope` reassigned
     # under `if`, a `let scope = outer.enter(&meta)` helper, a match) it must be
     #       if <popped meta>.path().is_ident("not") { Reject } else { <popped scope> }
@@ -124,7 +147,7 @@ def a34(ctx, rep):
         if not (isinstance(b_, dict) and b_.get('k') == 'payload' and str(b_.get('variant', '')).split('::')[-1] == 'Some'):
             return False
         p_ = vt.unvar(b_.get('of'))
-        return isinstance(p_, dict) and p_.get('k') == 'call' and p_.get('f') == 'pop' and 'meta' in vt.show(p_.get('recv'))
+        return isinstance(p_, dict) and p_.get('k') == 'call' and p_.get('f') == 'pop' and work_of(p_.get('recv')) == work
 
     def scope_value(v):
         """'ok' / reason"""
@@ -147,7 +170,7 @@ def a34(ctx, rep):
             return f'outside `not` the scope is `{vt.show(e_)[:50]}` instead of the scope the item was pushed with'
         return 'ok'
     used = []
-    ext = [c for c in it['calls'] if c.get('f') == 'extend' and 'meta' in vt.show(c.get('recv'))]
+    ext = [c for c in it['calls'] if c.get('f') in ('extend', 'push') and c.get('recv') is not None and work_of(c['recv']) == work]
     pushed = []
     for e in ext:
         for x in vt.walk(e['args'][0]):
@@ -160,11 +183,37 @@ def a34(ctx, rep):
             tv = vt.unvar(rv.get('v'))
             if isinstance(tv, dict) and tv.get('k') == 'tuple' and tv.get('items'):
                 yielded.append(tv['items'][0])
+    if recorder is not None:
+        # collector form: a candidate is "yielded" by handing it, with its scope, to the recorder
+        for c in it['calls']:
+            if str(c.get('f')).split('::')[-1] == recorder['name'] and c.get('args'):
+                yielded.append(c['args'][0])
     verdicts = [scope_value(x) for x in pushed + yielded]
     bad = [x for x in verdicts if x != 'ok']
     rep.check(bool(verdicts) and not bad, 'A4', 'scope:only-constant-reject-on-not', 'scope = Reject below `not`, the inherited scope otherwise', f"TargetOsIterator::next: {bad[0] if bad else 'no scope value found'} — inside not(..) every nested target_os must stay in reject scope (a toggle makes not(any(not(..)))) accept what the rule rejects)", site)
     rep.check(bool(pushed), 'A4', 'scope:children-inherit', 'children are pushed with their parent\'s scope', 'TargetOsIterator::next does not push nested meta items with the current scope', site)
     rep.check(bool(yielded), 'A4', 'scope:yielded-with-candidate', 'each candidate is yielded with its scope', 'TargetOsIterator::next does not yield (scope, os) pairs', site)
+
+
+def find_recorder(ctx):
+    """{'name', 'accept': field, 'reject': field} of the method that files a (scope, value) pair under the list of its scope, or None."""
+    for g in ctx.fns(file='target_os_check.rs'):
+        sp = next((p_['name'] for p_ in g['params'] if 'TargetScope' in str(p_.get('ty') or '')), None)
+        if sp is None:
+            continue
+        side = {}
+        for c in g['calls']:
+            if c.get('f') not in ('push', 'extend', 'insert') or c.get('recv') is None:
+                continue
+            r = vt.strip(c['recv'])
+            fld_ = (r.get('path') or [None])[-1] if isinstance(r, dict) and r.get('k') == 'atom' and r.get('root') == 'self' else None
+            arms = [fr for fr in c.get('guard', []) if fr.get('k') == 'arm' and vt.show(vt.strip(fr.get('scrut'))) == sp and fr.get('guard') is None]
+            others = [fr for fr in c.get('guard', []) if fr.get('k') in ('if', 'for', 'while', 'loop') or (fr.get('k') == 'arm' and fr not in arms)]
+            if fld_ and len(arms) == 1 and not others and len(arms[0].get('variants', [])) == 1:
+                side[str(arms[0]['variants'][0]).split('::')[-1]] = fld_
+        if set(side) == {'Accept', 'Reject'} and side['Accept'] != side['Reject']:
+            return {'name': g['name'].split('::')[-1], 'accept': side['Accept'], 'reject': side['Reject'], 'fn': g}
+    return None
 
 
 def a5(ctx, rep):
@@ -202,6 +251,11 @@ def a5(ctx, rep):
         x = vt.strip(x)
         while isinstance(x, dict) and x.get('k') in ('ref', 'paren'):
             x = vt.strip(x.get('v'))
+        if recorder is not None and isinstance(x, dict):
+            # one of the two lists of the collector (destructured, or projected from the collector value)
+            nm = x.get('field') if x.get('k') == 'payload' else (x.get('name') if x.get('k') == 'field' else ((x.get('path') or [None])[-1] if x.get('k') == 'atom' else None))
+            if nm in (recorder['accept'], recorder['reject']):
+                return (0 if nm == recorder['accept'] else 1), {'collector': True}
         if isinstance(x, dict) and x.get('k') == 'field' and str(x.get('name')) in ('0', '1'):
             pc = vt.strip(x.get('base'))
             if isinstance(pc, dict) and pc.get('k') == 'call' and pc.get('f') == 'partition':
@@ -234,10 +288,11 @@ def a5(ctx, rep):
             return h
         return None
     tparam = next((q['name'] for q in f['params'] if q['name'] != 'attrs'), 'target_os')
-    if not [c for c in f['calls'] if c.get('f') == 'partition']:
+    recorder = find_recorder(ctx) if not [c for c in f['calls'] if c.get('f') == 'partition'] else None
+    if not [c for c in f['calls'] if c.get('f') == 'partition'] and recorder is None:
         # the decision model below reads the accepted / rejected sides as the two halves of one `partition` of the candidate
-        # stream; candidates accumulated some other way (a collector object with two lists) are not modelled — no verdict
-        raise core.Incomplete('A5: accept_target_os does not split the candidates with `partition`: which list is the accept side and whether every candidate reaches one of them is not modelled for this shape')
+        # stream, or as the two lists a recorder method files candidates under by scope; anything else is not modelled
+        raise core.Incomplete('A5: accept_target_os splits the candidates neither with `partition` nor through a recorder that files them by scope: which list is the accept side and whether every candidate reaches one of them is not modelled for this shape')
 
     def no_targets(x):
         x = expand(x)
@@ -256,9 +311,9 @@ def a5(ctx, rep):
     acc_any = [anyany(x) for x in acc_terms]
     acc_empty = [half(vt.unvar(x).get('recv')) for x in acc_terms if isinstance(vt.unvar(x), dict) and vt.unvar(x).get('k') == 'call' and vt.unvar(x).get('f') == 'is_empty']
     # which half is which: evaluate the partition predicate on both scopes
-    acc_idx = None
+    acc_idx = 0 if recorder is not None else None
     pcs = [h[1] for h in [rej_half] + acc_any + acc_empty if h]
-    if pcs and pcs[0].get('args'):
+    if recorder is None and pcs and pcs[0].get('args'):
         clo = vt.unvar(pcs[0]['args'][0])
         body = clo.get('body') if isinstance(clo, dict) and clo.get('k') == 'closure' else None
 
@@ -271,7 +326,20 @@ def a5(ctx, rep):
             acc_idx = 0 if pa.get('v') is True else 1
     part = [c for c in f['calls'] if c.get('f') == 'partition']
     ok = len(part) == 1
-    if ok:
+    if recorder is not None:
+        # collector form: the walker is run on every cfg argument of every attribute, unconditionally
+        walkers = [c for c in ctx.fn('accept_target_os', file='target_os_check.rs')['calls'] if c.get('recv') is not None and any(g['name'].split('::')[-1] == str(c.get('f')) and any(cc.get('f') == 'pop' for cc in g['calls']) for g in ctx.fns(file='target_os_check.rs'))]
+        ok = bool(walkers)
+        for c in walkers:
+            frs = c.get('guard', [])
+            if [fr for fr in frs if fr.get('k') in ('if', 'arm', 'while') and not fr.get('early_exit')]:
+                ok = False
+            fors = [fr for fr in frs if fr.get('k') == 'for']
+            srcs = ' '.join(vt.show(fr.get('over')) for fr in fors)
+            chain = [x.get('f') for fr in fors for x in vt.calls_in(fr.get('over') or {})]
+            if [x for x in chain if x in ('take', 'skip', 'find', 'next', 'take_while', 'skip_while', 'step_by', 'nth', 'first', 'last', 'filter')] or 'get_meta_items' not in srcs:
+                ok = False
+    elif ok:
         chain = [x.get('f') for x in vt.calls_in(part[0]['recv'])] if isinstance(part[0].get('recv'), dict) else []
         bad = [x for x in chain if x in ('take', 'skip', 'find', 'next', 'take_while', 'skip_while', 'step_by', 'nth', 'first', 'last')]
         ok = not bad and 'flat_map' in chain
